@@ -65,6 +65,8 @@ pub struct ExploreResult {
     pub depth: u32,
     pub fixpoint: bool,
     pub cap_hit: bool,
+    /// the exploration was ended at the end of the BFS level in which the first violations were found
+    pub stopped: bool,
     pub per_level: Vec<u64>,
     pub distinct_obs: u64,
 }
@@ -99,6 +101,8 @@ pub fn explore<M: Machine>(init: M, cfg: &ExploreCfg, rep: &mut Report, props: &
     let mut depth = 0u32;
     let mut fixpoint = false;
     let mut cap_hit = false;
+    let mut stopped = false;
+    let mut found_here = 0u64;
     let mut all_obs: HashSet<u64> = HashSet::new();
     let mut sampled = 0;
 
@@ -193,6 +197,7 @@ pub fn explore<M: Machine>(init: M, cfg: &ExploreCfg, rep: &mut Report, props: &
                 }
                 let already = rep.per_class.get(&f.class).copied().unwrap_or(0);
                 let ops = if already < PER_CLASS_CAP { path_to::<M>(&parents, sid, Some(&op)) } else { Vec::new() };
+                found_here += 1;
                 rep.violation(Violation {
                     prop: f.prop,
                     class: f.class,
@@ -205,6 +210,7 @@ pub fn explore<M: Machine>(init: M, cfg: &ExploreCfg, rep: &mut Report, props: &
             for (sid, op, msg) in ch.panics {
                 let ops = path_to::<M>(&parents, sid, Some(&op));
                 // a panic of the subject violates the property under check and C17
+                found_here += 1;
                 for p in props {
                     rep.violation(Violation {
                         prop: p,
@@ -238,6 +244,14 @@ pub fn explore<M: Machine>(init: M, cfg: &ExploreCfg, rep: &mut Report, props: &
             sampled += 1;
         }
         frontier = nextf;
+        if found_here > 0 {
+            // counterexamples of minimal length have been recorded; a faulty subject can have an unbounded state
+            // space (the reference model and the real state drift apart), so the search ends with this level
+            stopped = true;
+            rep.exhaustive = false;
+            rep.count("explorations_ended_at_the_level_of_the_first_violation", 1);
+            break;
+        }
         if seen.len() as u64 > cfg.state_cap || rss_gb() > max_rss_gb() {
             cap_hit = true;
             break;
@@ -275,7 +289,7 @@ pub fn explore<M: Machine>(init: M, cfg: &ExploreCfg, rep: &mut Report, props: &
         "states_per_level": per_level,
         "distinct_observations": all_obs.len(),
     }));
-    ExploreResult { states, transitions, depth, fixpoint, cap_hit, per_level, distinct_obs: all_obs.len() as u64 }
+    ExploreResult { states, transitions, depth, fixpoint, cap_hit, stopped, per_level, distinct_obs: all_obs.len() as u64 }
 }
 
 /// resident set size of this process in GiB (0 when it cannot be read)
